@@ -313,6 +313,45 @@ theorem udirSectors_append_new (us : List UDir) (id : Nat) :
     udirSectors (us ++ [{ id := id, info := 0 }]) = udirSectors us + 1 := by
   simp [udirSectors, fidBlocks, BS]
 
+/-! ### continuation blocks -/
+
+theorem ceAdd_length (len : Nat) (bs : List Susp.Block) :
+    ((ceAdd len bs).1.length = bs.length ∧ (ceAdd len bs).2 = 0) ∨ ((ceAdd len bs).1.length = bs.length + 1 ∧ (ceAdd len bs).2 = BS) := by
+  induction bs with
+  | nil => right; simp [ceAdd]
+  | cons b rest ih =>
+    simp only [ceAdd]
+    cases h : Susp.addEntry BS b len with
+    | some r => left; simp
+    | none =>
+      simp only [List.length_cons]
+      rcases ih with ⟨h1, h2⟩ | ⟨h1, h2⟩
+      · left; exact ⟨by omega, h2⟩
+      · right; exact ⟨by omega, h2⟩
+
+theorem ceFree_length (idx off len : Nat) (bs : List Susp.Block) (r : List Susp.Block × Nat) (h : ceFree idx off len bs = some r) :
+    (r.1.length = bs.length ∧ r.2 = 0) ∨ (r.1.length + 1 = bs.length ∧ r.2 = BS) := by
+  induction bs generalizing idx r with
+  | nil => simp [ceFree] at h
+  | cons b rest ih =>
+    simp only [ceFree] at h
+    by_cases hi : idx = 0
+    · rw [if_pos hi] at h
+      by_cases hc : b.contains (off, len) = true
+      · rw [if_pos hc] at h
+        by_cases he : (Susp.removeEntry b off len).isEmpty = true
+        · rw [if_pos he] at h; simp only [Option.some.injEq] at h; subst h; right; simp
+        · rw [if_neg he] at h; simp only [Option.some.injEq] at h; subst h; left; simp
+      · rw [if_neg hc] at h; simp at h
+    · rw [if_neg hi] at h
+      cases hx : ceFree (idx - 1) off len rest with
+      | none => simp [hx] at h
+      | some x =>
+        simp [hx] at h; subst h
+        rcases ih (idx - 1) x hx with ⟨h1, h2⟩ | ⟨h1, h2⟩
+        · left; exact ⟨by simp [h1], h2⟩
+        · right; exact ⟨by simp only [List.length_cons]; omega, h2⟩
+
 /-! ### path tables inside the state -/
 
 theorem layoutEnd_setPt (s : State) (tree : Nat) (p : PathTable.PT) :
@@ -332,7 +371,7 @@ theorem ptOf_inv (s : State) (tree : Nat) (h0 : PathTable.Inv s.pt0) (h1 : PathT
   unfold ptOf; split <;> assumption
 
 /-- everything but the directories: unchanged by replacing the directory list -/
-def baseDirs (s : State) : Nat := s.fixed + 2 * s.pt0.extents + 2 * s.pt1.extents + s.ce + inoSectors s.inos + udirSectors s.udirs + s.ufree
+def baseDirs (s : State) : Nat := s.fixed + 2 * s.pt0.extents + 2 * s.pt1.extents + s.ceb.length + inoSectors s.inos + udirSectors s.udirs + s.ufree
 
 theorem layoutEnd_eq_dirs (s : State) : layoutEnd s = baseDirs s + dirSectors s.dirs := by
   simp [layoutEnd, baseDirs]; omega
@@ -389,10 +428,12 @@ theorem addPart_exact (s s' : State) (p : AddPart) (b : Nat) (hok : Ok s)
         rw [hg] at hex; simp at hex
         exact ⟨1, by simp [BS], by rw [hle]; omega, hf1, hf2, hdirs, hi0, hi1⟩
     · simp at h
-  | ceBlock =>
+  | ceEntry len =>
     simp only [addPart, Option.some.injEq, Prod.mk.injEq] at h
     obtain ⟨rfl, rfl⟩ := h
-    exact ⟨1, by simp, by simp [layoutEnd]; omega, rfl, rfl, hd, h0, h1⟩
+    rcases ceAdd_length len s.ceb with ⟨hl, hb⟩ | ⟨hl, hb⟩
+    · exact ⟨0, by simp [hb], by simp [layoutEnd, hl], rfl, rfl, hd, h0, h1⟩
+    · exact ⟨1, by simp [hb], by simp [layoutEnd, hl]; omega, rfl, rfl, hd, h0, h1⟩
   | vd =>
     simp only [addPart, Option.some.injEq, Prod.mk.injEq] at h
     obtain ⟨rfl, rfl⟩ := h
@@ -463,13 +504,16 @@ theorem rmPart_exact (s s' : State) (p : RmPart) (b : Nat) (hok : Ok s)
           simp at hex
           exact ⟨k, by simp [hk], by omega, hf1, hf2, hok', hi0, hi1⟩
     · simp at h
-  | ceBlock =>
+  | ceFree idx off len =>
     simp only [rmPart] at h
-    split at h
-    · simp only [Option.some.injEq, Prod.mk.injEq] at h
+    cases hu : Iso.ceFree idx off len s.ceb with
+    | none => simp [hu] at h
+    | some r =>
+      simp [hu] at h
       obtain ⟨rfl, rfl⟩ := h
-      exact ⟨1, by simp, by simp [layoutEnd]; omega, rfl, rfl, hd, h0, h1⟩
-    · simp at h
+      rcases ceFree_length idx off len s.ceb r hu with ⟨hl, hb⟩ | ⟨hl, hb⟩
+      · exact ⟨0, by simp [hb], by simp [layoutEnd, hl], rfl, rfl, hd, h0, h1⟩
+      · exact ⟨1, by simp [hb], by simp [layoutEnd]; omega, rfl, rfl, hd, h0, h1⟩
   | ufid dir len =>
     simp only [rmPart] at h
     cases hu : updUDir dir (rmFid len) s.udirs with
@@ -638,7 +682,7 @@ theorem unlinkIno_sectors (id n nu : Nat) (is : List Ino) (r : List Ino × Nat) 
 /-! ### the invariant -/
 
 /-- everything but the file contents -/
-def baseInos (s : State) : Nat := s.fixed + 2 * s.pt0.extents + 2 * s.pt1.extents + dirSectors s.dirs + s.ce + udirSectors s.udirs + s.ufree
+def baseInos (s : State) : Nat := s.fixed + 2 * s.pt0.extents + 2 * s.pt1.extents + dirSectors s.dirs + s.ceb.length + udirSectors s.udirs + s.ufree
 
 theorem layoutEnd_eq_inos (s : State) : layoutEnd s = baseInos s + inoSectors s.inos := by
   simp [layoutEnd, baseInos]; omega
